@@ -84,6 +84,38 @@ impl Node {
   pub fn height(&self) -> u32 {
     u32::try_from(self.handle.state().hashes.len() - 1).unwrap()
   }
+
+  /// Appends one block to the active chain.
+  pub fn append_block(&self, block: &Block) {
+    let mut state = self.handle.state();
+    let height = state.hashes.len();
+    let hash = block.block_hash();
+    state.hashes.push(hash);
+    state.blocks.insert(hash, block.clone());
+    for tx in &block.txdata {
+      let txid = tx.compute_txid();
+      for input in &tx.input {
+        if !input.previous_output.is_null() {
+          state.utxos.remove(&input.previous_output);
+        }
+      }
+      for (vout, output) in tx.output.iter().enumerate() {
+        if !output.script_pubkey.is_op_return() {
+          state.utxos.insert(
+            OutPoint {
+              txid,
+              vout: vout as u32,
+            },
+            output.value,
+          );
+        }
+      }
+      state.transactions.insert(txid, tx.clone());
+      state
+        .txid_to_block_height
+        .insert(txid, u32::try_from(height).unwrap());
+    }
+  }
 }
 
 #[derive(Clone, Debug, PartialEq, Eq, Hash, serde::Serialize, serde::Deserialize)]
